@@ -26,21 +26,36 @@ namespace Cfb
     started at `ids[0]` returns exactly the sectors `ids[0], …, ids[n-1]` in this order (their
     contents concatenated), whatever the state of the lazy sector cache, provided the sectors are
     distinct and the file holds them entirely (then the accumulation guard of the fixed loop — never
-    more bytes than have been read — cannot fire: pigeonhole). No ordering assumption on `ids`:
+    more bytes than have been read — cannot fire: pigeonhole); `hlazy`: the cache is filled from the file on
+    demand (the sectors of the file) or already holds the chain (the mini stream, which never reads the file).
+    No ordering assumption on `ids`:
     permuted and fragmented chains are covered. -/
 theorem chain_follow (fats : List Nat) (body : Bytes) (ids : List Nat) (rem : Nat) (s : Sectors) (rd : Bytes)
     (hcache : s.data ++ rd = body) (hrem : ids.length ≤ rem) (hss : 0 < s.size)
+    (hlazy : s.lazy = true ∨ ∀ x ∈ ids, (x + 1) * s.size ≤ s.data.length)
     (hchain : ∀ i (h : i < ids.length), ids[i] ≠ ENDOFCHAIN ∧ fats[ids[i]]? = some (ids[i+1]?.getD ENDOFCHAIN))
     (hdistinct : ids.Nodup) (hfull : ∀ x ∈ ids, (x + 1) * s.size ≤ body.length) :
     ∃ s' rd', Sectors.chainLoop fats rem (ids[0]?.getD ENDOFCHAIN) s rd 0 =
         .ok ((ids.map (sec body s.size)).flatten, s', rd') ∧ s'.data ++ rd' = body ∧ s'.size = s.size :=
-  chainLoop_follow fats body ids rem s rd hcache hrem hss hchain hdistinct hfull
+  chainLoop_follow fats body ids rem s rd hcache hrem hss hlazy hchain hdistinct hfull
 
-/-- the lazily filled cache is transparent: `Sectors::get` returns the sector of the underlying
-    sector area (clipped at EOF), whatever has been read before -/
-theorem sector_get_cache_independent (s : Sectors) (id : Nat) (rd body : Bytes) (h : s.data ++ rd = body) :
+/-- the lazily filled cache is transparent: `Sectors::get` returns the sector of the underlying sector area
+    (clipped at EOF), whatever has been read before; an in-memory `Sectors` (the mini stream) returns the bytes
+    it holds and never touches the reader -/
+theorem sector_get_cache_independent (s : Sectors) (id : Nat) (rd body : Bytes) (h : s.data ++ rd = body)
+    (hlazy : s.lazy = true) :
     (s.get id rd).1 = sec body s.size id ∧ (s.get id rd).2.1.data ++ (s.get id rd).2.2 = body :=
-  ⟨(Sectors.get_spec s id rd body h).1, (Sectors.get_spec s id rd body h).2.1⟩
+  ⟨(Sectors.get_spec s id rd body h (Or.inl hlazy)).1, (Sectors.get_spec s id rd body h (Or.inl hlazy)).2.1⟩
+
+/-- the mini stream is held in memory: reading a mini sector never advances the file reader, even when the
+    sector reaches behind the end of the mini stream (unpadded root size) -/
+theorem mini_get_never_reads (s : Sectors) (id : Nat) (rd : Bytes) (h : s.lazy = false) :
+    (s.get id rd).2 = (s, rd) ∧ (s.get id rd).1 = (s.data.drop (min (id * s.size) s.data.length)).take
+      (min (id * s.size + s.size) s.data.length - min (id * s.size) s.data.length) := by
+  obtain ⟨d, z, l⟩ := s
+  simp only at h
+  subst h
+  simp [Sectors.get]
 
 /-- `read_chain_concat`: reading the sectors of chain `c` of a space in chain order yields the
     chain's data cut into sector-sized pieces (the last one padded), for every allocation `sp`
@@ -70,11 +85,12 @@ theorem chain_roundtrip (sp : Space) (ss : Nat) (hss : 0 < ss) (fill : UInt8) (P
     (c : Nat) (D : Bytes) (hPc : P[c]? = some (pieces ss fill D))
     (hok : chainOK sp c (nsect ss D.length) = true)
     (len : Nat) (hlen : sp.owner.size ≤ len) (hres : sp.owner.size ≤ RESERVED)
-    (s : Sectors) (rd : Bytes) (hsz : s.size = ss) (hinv : s.data ++ rd = sp.body ss fill P fatSec difSec) :
+    (s : Sectors) (rd : Bytes) (hsz : s.size = ss) (hinv : s.data ++ rd = sp.body ss fill P fatSec difSec)
+    (hlazy : s.lazy = true ∨ ss * sp.owner.size ≤ s.data.length) :
     ∃ s' rd', s.getChain (chainStart sp c) (sp.fats len) rd D.length = .ok (D, s', rd') ∧
       s'.data ++ rd' = sp.body ss fill P fatSec difSec ∧ s'.size = ss := by
   obtain ⟨s', rd', he, hi, hz⟩ := Space.getChain_gen sp ss hss fill P fatSec difSec hP hf hd c D hPc hok len hlen
-    hres s rd [] hsz (by rw [List.append_nil]; exact hinv) D.length
+    hres s rd [] hsz (by rw [List.append_nil]; exact hinv) hlazy D.length
   rw [stream_read_result ss fill hss] at he
   rw [List.append_nil] at hi
   exact ⟨s', rd', he, hi, hz⟩
@@ -157,10 +173,10 @@ theorem cfb_roundtrip_mini (streams : List Stream) (L : Layout) (h : Valid strea
   refine ⟨by simp [streamDir, hst, hm], by simp [streamDir, hst], ?_, ?_, ?_⟩
   · rw [hg.mini, hg.miniFats]; exact hsub
   · obtain ⟨d, s, f, m, mf⟩ := c
-    obtain ⟨g1, g2, g3, g4, g5, g6⟩ := hg
-    simp only at g1 g2 g3 g4 g5 g6
+    obtain ⟨g1, g2, g3, g4, g5, g6, g7⟩ := hg
+    simp only at g1 g2 g3 g4 g5 g6 g7
     subst g3 g4
-    rw [getStream_entry streams L hv _ rd ⟨g1, g2, rfl, rfl, g5, g6⟩ s0 st hst]
+    rw [getStream_entry streams L hv _ rd ⟨g1, g2, rfl, rfl, g5, g6, g7⟩ s0 st hst]
     unfold getStreamAt
     simp only [streamDir, hst, hm, hmini, if_true]
     rw [hsub]
@@ -179,7 +195,7 @@ theorem cfb_roundtrip_regular (streams : List Stream) (L : Layout) (h : Valid st
   have hv := valid_unpack streams L h
   have hm : isMini st = false := by simp [isMini]; omega
   have hnl : ¬ st.data.length < 4096 := by omega
-  obtain ⟨s', rd', he, _, _⟩ := main_subread streams L hv s0 st hst hm c.sectors rd hg.inv hg.size
+  obtain ⟨s', rd', he, _, _⟩ := main_subread streams L hv s0 st hst hm c.sectors rd hg.inv hg.size hg.lazy
   refine ⟨by simp [streamDir, hst, hm], by simp [streamDir, hst], ⟨s', rd', ?_, ?_⟩,
     regular_stream_sectors streams L hv s0 st hst hm⟩
   · rw [hg.fats]; exact he
@@ -283,16 +299,16 @@ theorem read_cost_linear (file : Bytes) (len : Nat) (c : CfbSt) (rd : Bytes) (h 
 /-- on an acyclic (valid) chain of distinct sectors the bounds are never the reason for an error: a fuel of
     the number of sectors of the chain suffices (statement of `chain_follow` with `rem = ids.length`) -/
 theorem chain_fuel_suffices (fats : List Nat) (body : Bytes) (ids : List Nat) (s : Sectors) (rd : Bytes)
-    (hcache : s.data ++ rd = body) (hss : 0 < s.size)
+    (hcache : s.data ++ rd = body) (hss : 0 < s.size) (hlazy : s.lazy = true)
     (hchain : ∀ i (h : i < ids.length), ids[i] ≠ ENDOFCHAIN ∧ fats[ids[i]]? = some (ids[i+1]?.getD ENDOFCHAIN))
     (hdistinct : ids.Nodup) (hfull : ∀ x ∈ ids, (x + 1) * s.size ≤ body.length) :
     ∃ r, Sectors.chainLoop fats ids.length (ids[0]?.getD ENDOFCHAIN) s rd 0 = .ok r := by
-  obtain ⟨s', rd', he, _, _⟩ := chainLoop_follow fats body ids ids.length s rd hcache (Nat.le_refl _) hss hchain
-    hdistinct hfull
+  obtain ⟨s', rd', he, _, _⟩ := chainLoop_follow fats body ids ids.length s rd hcache (Nat.le_refl _) hss
+    (Or.inl hlazy) hchain hdistinct hfull
   exact ⟨_, he⟩
 
 /-- a self-referencing chain is an error, not a hang (the D29 input) -/
-example : Sectors.getChain ⟨[], 512⟩ 0 [0] [1, 2, 3] 0 = .err "io" := by decide
+example : Sectors.getChain ⟨[], 512, true⟩ 0 [0] [1, 2, 3] 0 = .err "io" := by decide
 
 /-! ## a concrete instance -/
 
